@@ -149,10 +149,20 @@ where
         }
         Ok(Err(err)) => {
             clean_on_error();
+            // All elements are dropped, release the allocation
+            unsafe {
+                manually_drop.set_len(0);
+                ManuallyDrop::drop(&mut manually_drop);
+            }
             Err(err)
         }
         Err(err) => {
             clean_on_error();
+            // All elements are dropped, release the allocation
+            unsafe {
+                manually_drop.set_len(0);
+                ManuallyDrop::drop(&mut manually_drop);
+            }
             panic!("{:?}", err);
         }
     }
